@@ -24,6 +24,8 @@ def main():
         rc = mod.replay(ctx, payload)
         sys.exit(rc)
     rep = core.Report(a.prop)
+    if hasattr(mod, "prepare"):
+        mod.prepare(ctx, rep)          # e.g. regenerate the Lean tables from the current source
     if a.no_lean:
         leanres = dict(ok=True, failures=[], obligations=0, discharged=0, checker_cmd="(skipped)")
     else:
